@@ -157,7 +157,8 @@ def run(tier, seed, only=None):
                  ("persistent-faults", persistent_configs(tier), (0, 1, 1)),
                  ("dead-leader", dead_leader_configs(tier), (1, 1, 2))]
     else:
-        plans = [("all-configs-3dev", configs(tier), (2, 1, 3)),
+        plans = [("all-configs-2dev", configs(tier), (2, 1, 2)),
+                 ("third-of-configs-3dev", configs(tier)[::3], (2, 1, 3)),
                  ("core-3dev", core_configs(tier), (2, 2, 3)),
                  ("queued-stop-cancel", queued_configs(tier), (2, 2, 3)),
                  ("persistent-faults", persistent_configs(tier), (1, 1, 2)),
